@@ -370,14 +370,14 @@ Proof.
 Qed.
 
 Definition simple (s : stmt) : Prop :=
-  match s with SLet _ _ | SSwap _ _ | SErase _ | SDim _ _ | SClear _ | SDef _ _ _ => True | _ => False end.
+  match s with SLet _ _ | SSwap _ _ | SErase _ | SDim _ _ | SClear _ | SDef _ _ _ | SDeftype _ _ _ => True | _ => False end.
 
 Lemma def_params_EVN : forall ps st, Good c st -> idle st ->
   EVN (fun _ (_ : unit) => True) st
     ((fix go (ps : list Z) (s : state) : R unit :=
         match ps with
         | [] => retR s tt
-        | p :: r => doR (s1, _) <- set_scalar c s p None; go r s1
+        | p :: r => doR (s1, _) <- set_scalar c s (resolve s p) None; go r s1
         end) ps st).
 Proof.
   induction ps as [|p ps IH]; intros st G Hi.
@@ -417,11 +417,17 @@ Proof.
                    (fix go (ps : list Z) (s : state) : R unit :=
                       match ps with
                       | [] => retR s tt
-                      | p :: r => doR (s1, _) <- set_scalar c s p None; go r s1
+                      | p :: r => doR (s1, _) <- set_scalar c s (resolve s p) None; go r s1
                       end) params st2)).
     { eapply EVN_bind; [apply EVN_set_scalar; auto|].
       - simpl. destruct (is_strname f); simpl; spl; auto; try (intros; discriminate). intros; apply zero_ptr_ok.
       - intros st2 [] G2 I2 K2 _. apply def_params_EVN; assumption. }
     unfold EVN in H. destruct (bindR _ _) as [s r]. simpl. split; tauto.
+  - (* DEFINT / DEFSNG / DEFDBL / DEFSTR *)
+    cbn [exec]. simpl. split; [|exact Hi].
+    apply (Good_containers c st _ G).
+    + unfold same_mem. simpl. repeat split; reflexivity.
+    + simpl. exact (g_stack _ _ G).
+    + simpl. exact (g_tvals _ _ G).
 Qed.
 End Stmt.
